@@ -9,6 +9,7 @@ import (
 	"sort"
 	"strings"
 	"sync"
+	"time"
 	"testing"
 	"testing/synctest"
 
@@ -33,6 +34,8 @@ type History struct {
 	Model  []string
 	TieAt  int
 	DisAt  int
+	current    string // the operation being executed (watchdog)
+	EmptyStart string // C09/C10: result of a start-up on a zero-length state file ("" = started; "-" = not probed)
 }
 
 func (h *History) Ops() []impl.Op {
@@ -79,8 +82,16 @@ func (s *fixedSource) Observe(impl.Op, impl.Resp, int64) {}
 
 // runImpl executes one history on the real server inside a fresh bubble. detie inserts a tiny
 // advance after every operation so that no two dependent deadlines share a nanosecond.
+// watchdog (common.Watchdog): histories in progress, for the replay of a call that never returns
+var (
+	wdTick     = func() {}
+	wdInflight sync.Map // idx → *History
+)
+
 func runImpl(t *testing.T, idx int, cfg impl.Cfg, src opSource, detie *common.Rng) (h *History) {
-	h = &History{Idx: idx, Cfg: cfg, TieAt: -1, DisAt: -1}
+	h = &History{Idx: idx, Cfg: cfg, TieAt: -1, DisAt: -1, EmptyStart: "-"}
+	wdInflight.Store(idx, h)
+	defer wdInflight.Delete(idx)
 	dir, err := os.MkdirTemp(common.TempDir(), "h")
 	if err != nil {
 		t.Fatal(err)
@@ -103,6 +114,8 @@ func runImpl(t *testing.T, idx int, cfg impl.Cfg, src opSource, detie *common.Rn
 		}
 		defer im.Close()
 		exec := func(o impl.Op) bool {
+			wdTick()
+			h.current = o.Line()
 			before := im.Snapshot()
 			r := im.Exec(o)
 			if r.Panic != "" {
@@ -152,6 +165,14 @@ func runImpl(t *testing.T, idx int, cfg impl.Cfg, src opSource, detie *common.Rn
 				if !exec(impl.Op{Kind: "adv", D: int64(1 + detie.Intn(9))}) {
 					return
 				}
+			}
+		}
+		// the image a kill between Truncate(0) and Write of a rewrite leaves behind (K3) is a file the
+		// server itself produced: the next start must come up on it (with nothing to restore)
+		if p := common.Prop(); cfg.File && (p == "C10" || p == "C09") && idx%8 == 0 {
+			ep := filepath.Join(dir, "empty-state")
+			if err := os.WriteFile(ep, nil, 0o644); err == nil {
+				h.EmptyStart = impl.ProbeStart(cfg, ep)
 			}
 		}
 	})
@@ -356,6 +377,19 @@ func TestSeq(t *testing.T) {
 		return
 	}
 
+	wdTick = common.Watchdog(res, prop, "seq:deadlock:call-never-returns", 90*time.Second, func() any {
+		out := []map[string]any{}
+		wdInflight.Range(func(_, v any) bool {
+			h := v.(*History)
+			lines := []string{}
+			for _, s := range h.Steps {
+				lines = append(lines, s.Op.Line())
+			}
+			out = append(out, map[string]any{"cfg": h.Cfg.Line(), "ops_done": lines, "operation_that_never_returned": h.current})
+			return len(out) < 4
+		})
+		return map[string]any{"histories_in_progress": out}
+	})
 	n := common.EnvInt("VERIF_HISTORIES", 1000)
 	if common.Thorough() {
 		n = common.EnvInt("VERIF_HISTORIES", 6000)
